@@ -122,7 +122,7 @@ impl Check for C17Check {
     fn phases(&self, tier: Tier) -> Vec<Phase> {
         vec![
             Phase::exhaustive("exhaustive-hosted-asts", HOSTED.count_up_to(tier.pick(5, 6))).with_chunk(512),
-            Phase::random("random-asts", tier.pick(30_000, 600_000), 160).with_min_tape(24).with_chunk(256),
+            Phase::random("random-asts", tier.pick(80_000, 1_000_000), 160).with_min_tape(24).with_chunk(256),
         ]
     }
     fn run(&self, tier: Tier, phase: usize, input: &Input, ctx: &mut CaseCtx) {
